@@ -8,6 +8,8 @@ mod prog;
 mod metah;
 #[cfg(feature = "parallel")]
 mod parseq;
+#[cfg(feature = "parallel")]
+mod poolh;
 mod rng;
 mod worldh;
 
@@ -32,6 +34,8 @@ fn main() {
         "parseq" => parseq_cmd(&args[2..]),
         #[cfg(feature = "parallel")]
         "async" => async_cmd(&args[2..]),
+        #[cfg(feature = "parallel")]
+        "pool" => pool_cmd(&args[2..]),
         _ => {
             eprintln!("usage: shred_verif <plan|...> [options]");
             std::process::exit(2);
@@ -312,5 +316,52 @@ fn async_cmd(args: &[String]) {
         let c = asynch::gen_case(&mut r);
         if std::env::var("VERIF_TRACE_CASES").is_ok() { eprintln!("{} :: {}", c.head(), prog::to_text(&c.regs)); }
         emit(&c, &mut out);
+    }
+}
+
+/// pool --gen all|small --count REPS --seed S --shard i/n   |   pool --cases FILE
+/// one line per configuration: "pool cfg=<user|default|batch|async> width=<w> threads=<p> reps=<k> limit=<ms>"
+#[cfg(feature = "parallel")]
+fn pool_cmd(args: &[String]) {
+    let stdout = std::io::stdout();
+    let mut out = std::io::BufWriter::new(stdout.lock());
+    let mut emit = |cfg: &str, width: u32, threads: usize, reps: u32, limit: u64, out: &mut dyn Write| {
+        let obs = poolh::observe(cfg, width, threads, reps, limit);
+        writeln!(out, "pool cfg={} width={} threads={} reps={} limit={} :: -\t{}", cfg, width, threads, reps, limit, obs).unwrap();
+    };
+    if let Some(f) = arg(args, "--cases") {
+        let rd: Box<dyn BufRead> = Box::new(std::io::BufReader::new(std::fs::File::open(f).expect("cases file")));
+        for line in rd.lines() {
+            let line = line.unwrap();
+            let case = line.split('\t').next().unwrap().trim();
+            if case.is_empty() || case.starts_with('#') { continue; }
+            let get = |k: &str| case.split(' ').find_map(|t| t.strip_prefix(k)).map(|v| v.to_string());
+            emit(&get("cfg=").unwrap(), get("width=").unwrap().parse().unwrap(), get("threads=").unwrap().parse().unwrap(),
+                 get("reps=").unwrap().parse().unwrap(), get("limit=").unwrap().parse().unwrap(), &mut out);
+        }
+        return;
+    }
+    let gen = arg(args, "--gen").unwrap_or("all");
+    let reps: u32 = arg(args, "--count").map(|s| s.parse().unwrap()).unwrap_or(3);
+    let (si, sn) = arg(args, "--shard").map(|s| { let (a, b) = s.split_once('/').unwrap(); (a.parse::<u64>().unwrap(), b.parse::<u64>().unwrap()) }).unwrap_or((0, 1));
+    let cpus = std::thread::available_parallelism().map(|n| n.get()).unwrap_or(4);
+    let mut k = 0u64;
+    let widths: Vec<u32> = if gen == "small" { vec![2, 3, 5] } else { (2..=16).collect() };
+    for w in widths {
+        for cfg in ["user", "default", "batch", "async"] {
+            // pool exactly as wide as the stage, and a larger one; the default pool has one thread per CPU
+            let sizes: Vec<usize> = if cfg == "default" { if (w as usize) <= cpus { vec![cpus] } else { vec![] } } else { vec![w as usize, 16.max(w as usize)] };
+            for p in sizes {
+                k += 1;
+                if k % sn != si { continue; }
+                emit(cfg, w, p, reps, 5000, &mut out);
+            }
+        }
+    }
+    // the precondition is needed: one thread fewer than groups cannot complete the rendezvous (short limit)
+    for w in [2u32, 4] {
+        k += 1;
+        if k % sn != si { continue; }
+        emit("user", w, w as usize - 1, 1, 250, &mut out);
     }
 }
